@@ -23,13 +23,22 @@ RULE = ("TLC enumerates every plain interval with end points k/4, k in -8..8 (15
         "contains(interval) and overlaps with a second interval at every offset 0..23 around the circle x 7 lengths "
         "(thorough: all 24 lengths, both representations of the start), inverted construction.  Plus seeded random cases "
         "(400 + 400; thorough 4000 + 4000): arbitrary floats / ints strictly inside grid cells, incl. values 1e-3..1e-12 "
-        "next to end points, judged by their cell.  distinct_nontrivial = distinct intervals of positive length.")
+        "next to end points, judged by their cell.  Re-bounding scenarios (spec actions SetStart / SetEnd): every plain "
+        "interval x up to 11 target bounds, and every angle interval inside [-2pi, 2pi] whose length is one of the cfg's "
+        "lengths x up to 11 target bounds (widen / narrow / move start, end or both, across pi), each cold and warm "
+        "(queried once before): the bounds are assigned through the public setters along the path given by the spec, then "
+        "membership around the new and old bounds (and a turn away), contains/overlaps/intersection with 5 intervals and "
+        "+, *, /, round (angle: +) are recorded against the NEW bounds (sig suffix /after-set); inverted assignments must "
+        "be rejected.  distinct_nontrivial = distinct intervals of positive length.")
 ASSUMPTIONS = ["grid values are exact in binary floating point (k/4; products/quotients by +-1/2, +-1, +-2; decimal "
                "roundings as correctly rounded literals); angle grid k*pi/12 is computed as k*math.pi/12 everywhere",
                "angle end points that coincide with the query only modulo 2 pi (or after the constructor re-based the "
                "interval into [-2pi, 2pi]) are an EITHER band declared in Intervals.tla",
                "AngleInterval.overlaps: statement silent on linear vs. modular reading - both accepted (EITHER) where "
                "they differ",
+               "re-bounding through the setters is exercised only on angle intervals constructed inside [-2pi, 2pi] "
+               "(no re-basing), towards bounds inside [-2pi, 2pi] with start <= end and length < 2pi; the setters' "
+               "assertion `start <= end` is taken as the documented rejection of inverted bounds",
                "admissible arguments: scalars -2, -1, -1/2, 1/2, 1, 2 (and 0 for *), angle lengths < 2 pi, "
                "angle starts in [-2 pi, 2 pi]"]
 
@@ -52,11 +61,11 @@ def model_check(ctx):
     # first reached by Construct, so the operation actions show 0 there)
     import re
     taken = {}
-    for m in re.finditer(r"^<(\w+) line \d+, col \d+ to line \d+, col \d+ of module MC_Intervals>: (\d+):(\d+)",
-                         r["out"], re.M):
-        taken[m.group(1)] = int(m.group(3))
+    for m in re.finditer(r"^<(\w+) line \d+, col \d+ to line \d+, col \d+ of module MC_Intervals(?: \([\d ]+\))?>: "
+                         r"(\d+):(\d+)", r["out"], re.M):
+        taken[m.group(1)] = taken.get(m.group(1), 0) + int(m.group(3))     # disjuncts of one action are listed separately
     ctx.extra["action_transitions"] = taken
-    dead = [a for a in ("Construct", "Add", "Sub", "Mul", "Div", "Round", "Intersect", "AngleShift") if not taken.get(a)]
+    dead = [a for a in ("Construct", "SetStart", "SetEnd", "Add", "Sub", "Mul", "Div", "Round", "Intersect", "AngleShift") if not taken.get(a)]
     if dead:
         from crv.tlc import MachineryError
         raise MachineryError("MC_Intervals: actions never taken (vacuous laws): %s" % dead)
@@ -238,6 +247,65 @@ def _plain(case, ev):
                            **_iv(lambda: Interval(q(e, typ), q(s, typ)), _fine)))
 
 
+def _plain_sets(case, ev):
+    """construct [s, e], (query it once,) assign new bounds through the public setters along the path given by the spec,
+    then query: the events carry the NEW bounds (sig suffix /after-set) - the object must behave as a fresh interval"""
+    from commonroad.common.util import Interval
+    s, e = case["s"], case["e"]
+    for t in case.get("sets", []):
+        for warm in (0, 1):
+            def build(record=None):
+                i = Interval(q(s), q(e))
+                if warm:
+                    try:
+                        i.contains(q(s)), i.overlaps(Interval(q(s), q(e))), i.length
+                    except Exception:
+                        pass
+                cs, ce = s, e
+                for st in t["path"]:
+                    x = st["x"]
+
+                    def assign():
+                        if st["f"] == "start":
+                            i.start = q(x)
+                        else:
+                            i.end = q(x)
+                        return i
+                    if record is None:
+                        assign()
+                    else:
+                        r = _iv(assign, _fine)
+                        record.append(dict(op="set_" + st["f"], s=cs, e=ce, x=x, warm=warm, sig="set_%s/float" % st["f"], **r))
+                        if r["res"] != "ok":
+                            return None
+                    if st["f"] == "start":
+                        cs = x
+                    else:
+                        ce = x
+                return i
+            if build(ev) is None:
+                continue                                           # the failed assignment itself is the reported event
+            base = {"s": t["s"], "e": t["e"], "warm": warm}
+            for x in t["xs"]:
+                v = q(x)
+                ev.append(dict(base, op="contains", x=x, xgrid=1, res=_bool(lambda: build().contains(v)),
+                               sig="contains/I:float/x:float/after-set"))
+                ev.append(dict(base, op="contains", x=x, xgrid=1, res=_bool(lambda: v in build()),
+                               sig="in/I:float/x:float/after-set"))
+            for js, je in t["js"]:
+                mj = lambda: Interval(q(js), q(je))
+                b2 = dict(base, js=js, je=je)
+                ev.append(dict(b2, op="contains_interval", res=_bool(lambda: build().contains(mj())),
+                               sig="contains_interval/method/float/after-set"))
+                ev.append(dict(b2, op="overlaps", res=_bool(lambda: build().overlaps(mj())), sig="overlaps/float/after-set"))
+                ev.append(dict(b2, op="intersection", sig="intersection/float/after-set",
+                               **_iv(lambda: build().intersection(mj()), _fine)))
+            ev.append(dict(base, op="add", x=1, sig="add/I:float/x:float/after-set", **_iv(lambda: build() + q(1), _fine)))
+            ev.append(dict(base, op="mul", n=-2, d=1, sig="mul/c<0/I:float/c:float/after-set", **_iv(lambda: build() * -2.0, _fine)))
+            ev.append(dict(base, op="div", n=-1, d=2, sig="div/c<0/I:float/c:float/after-set", **_iv(lambda: build() / -0.5, _fine)))
+            ev.append(dict(base, op="round", digits="1", sig="round/n=1/float/after-set", **_iv(lambda: round(build(), 1), _fine)))
+
+
 def _plain_random(case, ev):
     from commonroad.common.util import Interval
     s, e = case["s"], case["e"]
@@ -257,12 +325,87 @@ def _plain_random(case, ev):
                        sig="in/I:float/x:%s" % vt))
 
 
-def _angle_queries(base, mk, lc, queries, ev):
+def _angle_queries(base, mk, lc, queries, ev, suffix=""):
     """I.contains(v) and `v in I`; sig = call form / is the interval longer than pi / argument type"""
     for th, on, v, vt in queries:
         b2 = dict(base, op="angle_contains", th=th, thgrid=on, thtype=vt)
-        ev.append(dict(b2, res=_bool(lambda: mk().contains(v)), sig="angle_contains/%s/%s" % (lc, vt)))
-        ev.append(dict(b2, res=_bool(lambda: v in mk()), sig="angle_in/%s/%s" % (lc, vt)))
+        ev.append(dict(b2, res=_bool(lambda: mk().contains(v)), sig="angle_contains/%s/%s%s" % (lc, vt, suffix)))
+        ev.append(dict(b2, res=_bool(lambda: v in mk()), sig="angle_in/%s/%s%s" % (lc, vt, suffix)))
+
+
+def _angle_sets(case, ev):
+    """as _plain_sets, for AngleInterval (only intervals inside [-2pi, 2pi]: the stored end points are the floats given)"""
+    from commonroad.common.util import AngleInterval
+    a, ln = case["a"], case["len"]
+    for t in case.get("sets", []):
+        for warm in (0, 1):
+            def build(record=None):
+                i = AngleInterval(g(a), g(a + ln))
+                if warm:
+                    try:
+                        g(a) in i, i.contains(0.3), i.contains(AngleInterval(g(a), g(a + ln))), i.length
+                    except Exception:
+                        pass
+                ca, cb = a, a + ln
+                for st in t["path"]:
+                    x = st["x"]
+
+                    def assign():
+                        if st["f"] == "start":
+                            i.start = g(x)
+                        else:
+                            i.end = g(x)
+                        return i
+                    if record is None:
+                        assign()
+                    else:
+                        r = _iv(assign, _aidx)
+                        record.append(dict(op="angle_set_" + st["f"], a=ca, len=cb - ca, x=x, warm=warm,
+                                           sig="angle_set_%s" % st["f"], **r))
+                        if r["res"] != "ok":
+                            return None
+                    if st["f"] == "start":
+                        ca = x
+                    else:
+                        cb = x
+                return i
+            if build(ev) is None:
+                continue
+            lc = _lenclass(t["len"])
+            base = {"a": t["a"], "len": t["len"], "warm": warm}
+            qs = []
+            for th in t["ths"]:
+                qs.append((th, 1, g(th), "float"))
+                if th == 0:
+                    qs.append((th, 1, 0, "int"))
+            _angle_queries(base, build, lc, qs, ev, suffix="/after-set")
+            for x in t["shifts"]:
+                ev.append(dict(base, op="angle_add", x=x, sig="angle_add/%s/after-set" % lc, **_iv(lambda: build() + g(x), _aidx)))
+            for ja, jl in t["js"]:
+                mj = lambda: AngleInterval(g(ja), g(ja + jl))
+                try:
+                    mj()
+                except Exception:
+                    continue
+                b2 = dict(base, ja=ja, jlen=jl)
+                ev.append(dict(b2, op="angle_contains_interval", res=_bool(lambda: build().contains(mj())),
+                               sig="angle_contains_interval/I:%s/J:%s/after-set" % (lc, "len<pi" if jl < 12 else "len>=pi")))
+                ev.append(dict(b2, op="angle_overlaps", res=_bool(lambda: build().overlaps(mj())),
+                               sig="angle_overlaps/%s/after-set" % lc))
+    # assigning an inverted bound must be rejected (the setters assert start <= end)
+    if case.get("sets"):
+        b = a + ln
+        for f, x in (("start", b + 1), ("end", a - 1)):
+            if -24 <= x <= 24:
+                def assign():
+                    i = AngleInterval(g(a), g(b))
+                    if f == "start":
+                        i.start = g(x)
+                    else:
+                        i.end = g(x)
+                    return i
+                ev.append(dict(op="angle_set_" + f, a=a, len=ln, x=x, warm=0, sig="angle_set_%s/inverted" % f,
+                               **_iv(assign, _aidx)))
 
 
 def _angle(case, ev):
@@ -323,6 +466,10 @@ def execute(case):
     use_repo()
     ev = []
     {"plain": _plain, "angle": _angle, "plain_random": _plain_random, "angle_random": _angle_random}[case["kind"]](case, ev)
+    if case["kind"] == "plain":
+        _plain_sets(case, ev)
+    elif case["kind"] == "angle":
+        _angle_sets(case, ev)
     return {"ev": ev}
 
 
